@@ -66,7 +66,8 @@ Fixpoint starts (l : list Z) (skip : Z) : list bool :=
 Definition spec_jumpdest_tbl (c : code) : Z -> bool :=
   let st := starts c 0 in
   let n := clen c in
-  fun d => (0 <=? d) && (d <? n) && (cnth c d =? 91) && nth (Z.to_nat d) st false.
+  (* [if], not [&&]: the VM is call-by-value and Z.to_nat of a 200-bit destination must never be built *)
+  fun d => if (0 <=? d) && (d <? n) then (cnth c d =? 91) && nth (Z.to_nat d) st false else false.
 
 Inductive ccase :=
 | COp (opcode x y z : Z) (result : Z)
